@@ -7,7 +7,7 @@ import io_gen as G
 
 
 def main():
-    ck = Check("C09", "exploration")
+    ck = Check("C09", "proof")
     build_repo()
     pr = ck.proofs()
     run_roundtrip_check(ck, "MPS", pr, G)
@@ -17,10 +17,16 @@ def main():
                       "bound statements of the written BOUNDS section vs encode_bounds (FX FR MI PL LO UP); non-trivial = comparison reached; distinct by problem text + stage")
     ck.cov["rule"] += ("; every MPS file written by the library is compared byte for byte with the extracted IO/MpsWrite.write_mps applied to the column-wise dump "
                        "of the problem (storage order of the matrix, lp->objname, intmarker / rangeval allocated or not); every LP file with IO/LpWrite.write_lp")
-    ck.cov["not_covered"] = ("no model of the MPS READER (fields, set names, section state machine): C09_mps_sections_roundtrip_partial is about the sections as data "
-                             "(reader-side semantics of Ranges.v / Bounds.v / markers applied to what the writer model builds), the file-level statement "
-                             "read_mps (write_mps P) ~ P is explored; MPS-specific input shapes (negative RHS on N rows, RANGES of both signs on L/G/E, BV/UI/LI bounds, "
-                             "OBJSENSE sections) are read from independently rendered files in C10; SOS sets and REFROW are not modelled")
+    ck.cov["rule"] += ("; theorem instances: wf_coreb / setnames_okb (proved sound for wf_mps / wf_core) and the extracted read_mps (write_mps P) are evaluated on the "
+                       "column-wise dump of every generated problem before its first MPS write - C09_mps_roundtrip (or C09_mps_roundtrip_fixed when the library has "
+                       "mps_setname_clash.diff, probed) must hold whenever the precondition does, and the model's round-trip outcome must equal the library's on every case; "
+                       "the witnesses of C09_mps_setname_clash_refuted / _rhs_refuted are replayed on the library every run")
+    ck.cov["not_covered"] = ("C09_mps_roundtrip is a theorem about the line-level models IO/MpsWrite.write_mps and IO/MpsRead.read_mps; their equality with the C code is "
+                             "checked (writer: bytes of every written file; reader: outcome on rendered / mutated / written / probe files in C10), not proved; "
+                             "files with a line of >= 131069 bytes are outside C09_mps_roundtrip_bytes; MPS-specific input shapes (negative RHS on N rows, RANGES of both "
+                             "signs on L/G/E, BV/UI/LI bounds, OBJSENSE spellings, several pairs per record, blank set names) are not produced by the writer: they are read from "
+                             "independently rendered files in C10 and judged by the reader correspondence, not by a theorem; SOS sets and REFROW are modelled in the reader "
+                             "(acceptance) but the writer model has none (the API cannot create them); lp_mps_agree and the LP<->MPS chains are explored")
     ck.assumptions = ["Coq kernel; extraction (ExtrOcamlBasic, ExtrOcamlString); OCaml", "harness h_io.c dumps through the query API", "names interned to N by checks/io_common.py"]
     ck.finish(trusted_base=["coqc 8.16.1 kernel", "OCaml extraction", "harness/h_io.c + checks/io_common.py + checks/C09.py"])
 
